@@ -323,7 +323,7 @@ pub fn expand(base: &Scenario, dry: &crate::exec::Report, tier: Tier) -> Vec<Sce
     // ordinals: the boundary before each interesting event and the one right after it
     let mut pts: std::collections::BTreeSet<u64> = Default::default();
     for (i, e) in events.iter().enumerate() { let site = e.split(':').next().unwrap_or(""); if interesting(site) { pts.insert(i as u64); if (i as u64) + 1 < n { pts.insert(i as u64 + 1); } } }
-    let (cap, all) = match (mode.as_str(), tier) { ("fail", Tier::Quick) => (8, false), ("fail", Tier::Thorough) => (150, true), (_, Tier::Quick) => (14, false), (_, Tier::Thorough) => (400, true) };
+    let (cap, all) = match (mode.as_str(), tier) { ("fail", Tier::Quick) => (8, false), ("fail", Tier::Thorough) => (150, true), ("power", Tier::Thorough) => (100, true), (_, Tier::Quick) => (14, false), (_, Tier::Thorough) => (300, true) };
     let mut chosen: Vec<u64> = if all && n <= cap { (0..n).collect() } else {
         let mut v: Vec<u64> = pts.into_iter().collect();
         r.shuffle(&mut v);
@@ -343,7 +343,7 @@ pub fn expand(base: &Scenario, dry: &crate::exec::Report, tier: Tier) -> Vec<Sce
             out.push(s0);
         }
         "power" => {
-            let pats = if tier == Tier::Quick { 3 } else { 6 };
+            let pats = if tier == Tier::Quick { 3 } else { 4 };
             for &k in &chosen {
                 for j in 0..pats {
                     let mode = match j { 0 => 0u64, 1 => 2, 2 => 3, 3 => 4, 4 => 5, _ => 2 };
